@@ -145,6 +145,34 @@ UNITS += [
          optional_loops=True),
 ]
 
+R_DROPS = Rw("drop(self.sender);", "vdrop_sender(self.sender);", why="drop of the sending end (closes the channel so that the thread ends its loop)")
+UNITS += [
+    # the status the packer thread sent is what finalize returns -- never replaced, never swallowed
+    Unit(name="packer_finalize", file=PKR, anchor="pub fn finalize(self) -> RusticResult<PackerStats>", within="impl<BE: DecryptWriteBackend> Packer<BE> {", ret_name="r",
+         wrap_open="impl PackerF {", wrap_close="}",
+         functions=["blob::packer::Packer::finalize"],
+         rewrites=[R_DROPS,
+                   Rw("-> RusticResult<PackerStats>", "-> RusticResult<PackerStatsR>", sig=True, why="statistics -> opaque"),
+                   Rw(r"self\.finish\s*\.recv\(\)\s*\.expect\([^)]*\)", "self.finish.vrecv()", regex=True, why="Receiver::recv().expect(..) -> stub: the status sent (a closed channel panics)")],
+         contract="\n    ensures /*@packer_finalize_returns_the_threads_status*/ r is Ok <==> self.finish.sent_ok@,\n"),
+    Unit(name="actor_finalize", file=PKR, anchor="fn finalize(self) -> RusticResult<()>", within="impl Actor {", ret_name="r",
+         wrap_open="impl ActorF {", wrap_close="}",
+         functions=["blob::packer::Actor::finalize"],
+         rewrites=[R_DROPS,
+                   Rw(r"self\.finish\.recv\(\)\.unwrap\(\)", "self.finish.vrecv()", regex=True, why="Receiver::recv().unwrap() -> stub: the status sent")],
+         contract="\n    ensures /*@actor_finalize_returns_the_threads_status*/ r is Ok <==> self.finish.sent_ok@,\n"),
+    Unit(name="blob_copier_finalize", file=PKR, anchor="pub fn finalize(self) -> RusticResult<PackerStats>", within="impl<BE: DecryptFullBackend> BlobCopier<BE> {", ret_name="r",
+         wrap_open="impl BlobCopierF {", wrap_close="}",
+         functions=["blob::packer::BlobCopier::finalize"],
+         rewrites=[Rw("-> RusticResult<PackerStats>", "-> RusticResult<PackerStatsR>", sig=True, why="statistics -> opaque")],
+         contract="\n    ensures /*@copier_finalize_is_its_packers*/ r is Ok <==> self.packer.finish.sent_ok@,\n"),
+    Unit(name="file_archiver_finalize", file="crates/core/src/archiver/file_archiver.rs", anchor="pub(crate) fn finalize(self) -> RusticResult<PackerStats>", ret_name="r",
+         wrap_open="impl FileArchiverF {", wrap_close="}",
+         functions=["archiver::file_archiver::FileArchiver::finalize"],
+         rewrites=[Rw("-> RusticResult<PackerStats>", "-> RusticResult<PackerStatsR>", sig=True, why="statistics -> opaque")],
+         contract="\n    ensures /*@file_archiver_finalize_is_its_packers*/ r is Ok <==> self.data_packer.finish.sent_ok@,\n"),
+]
+
 CPY = "crates/core/src/commands/copy.rs"
 UNITS += [
     Unit(name="copy_tail", file=CPY, kind="block", within="pub(crate) fn copy<'a, R: IndexedFull, S: IndexedIds>(",
